@@ -11,6 +11,7 @@ import JSight.ErrPos
 import JSight.OMapOps
 import Driver.Common
 import Driver.Sem
+import Driver.SemN
 import Driver.SemA
 import Driver.SemB
 import Driver.SemC
@@ -177,6 +178,7 @@ def handle (line : String) : String :=
   | ["fmt", "U", hx] => if Formats.uuidOK (unhex hx) then "OK" else "ERR"
   | ["fmt", "D", hx] => if Formats.dateOK (unhex hx) then "OK" else "ERR"
   | "omap" :: _ => DOMap.handle (restOf line)
+  | "semn" :: _ => DSemN.handle (restOf line)
   | "sem" :: _ => DSem.handle (restOf line)
   | "sema" :: _ => DSemA.handle (restOf line)
   | "semb" :: _ => DSemB.handle (restOf line)
